@@ -95,8 +95,14 @@ PENDING = "check not built yet in this session; planned as described in DESIGN.m
 
 def main():
     checks = []
+    # the authoritative rule list comes from the checker's registry, so the technique field cannot go stale
+    try:
+        rule_names = json.loads(subprocess.run([os.path.join(ROOT, "bin", "rocheck"), "-list-rules"], capture_output=True, text=True, check=True).stdout)
+    except Exception as e:
+        sys.exit(f"cannot list rules (build the checker first: ./run.sh C01 quick): {e}")
     for pid in sorted(CHECKS):
         tech, text, note, ref = CHECKS[pid]
+        tech = tech.rstrip(". ") + ". Deciding rules run by this check, all over type-checked syntax, go/cfg and the subscribe-closure model (no execution): " + ", ".join(rule_names[pid]) + "."
         checks.append({
             "property_id": pid,
             "quick_cmd": f"./run.sh {pid} quick",
